@@ -233,7 +233,10 @@ def gen_case(rng, i, tier):
         add("W%d;%d" % (a, rng.randrange(3, n)))
         add("S%d;%s" % (a, m1.spec()), send=a, msgs=[m1])
         add("p%d" % (1 - a))
-        add("%s%d;%s" % (rng.choice("VZ"), (1 - a) if True else a, "0003aabbcc"), foreign=True)
+        if rng.random() < 0.5:
+            add("V%d;0003aabbcc" % (1 - a), foreign=True)       # a third party connects to the receiver's passive candidate
+        else:
+            add("Z%d;0003aabbcc" % a, foreign=True)             # the sender's side of the pair's other connection
         add("p%d" % (1 - a)); add("P")
         m2 = rand_msg(rng, nxt(), big=False)
         add("S%d;%s" % (a, m2.spec()), send=a, msgs=[m2])
@@ -408,6 +411,13 @@ def oracle(line, out, meta):
         exp_data = [x[1][2:] for x in accepted[a] if x[0] == "d"]
         ice = [x[1][2:] for x in accepted[a] if x[0] == "i"]
         got = [x[1] for x in deliv[b]]
+        # a frame written into the pair's OTHER (verified) connection is a message of its own; the order between the
+        # two connections is not defined
+        for m in mops:
+            if m.get("foreign") and m["op"][0] == "Z" and int(m["op"][1]) == a and not bs:
+                inj = bytes.fromhex(m["op"].split(";")[1])[2:]
+                if inj in got and inj not in exp_data:
+                    got.remove(inj)
         if bs:
             if b"".join(got) != b"".join(exp_data):
                 if foreign_seen:
